@@ -16,6 +16,8 @@ This module generates the cases:
               (onConnect/onChallenge/onWelcome/onJoin/onLeave/onDisconnect raising, onWelcome denying, onJoin
               leaving, onLeave not calling / calling the default implementation, ...), on both transports;
 * kinds     - every subset of the six request kinds outstanding x every way the session ends x onLeave variants;
+* retry     - outstanding requests whose errback re-issues a request of the same / another kind (retry-on-error)
+              while the session ends via GOODBYE (either initiator), loss, disconnect or a protocol failure;
 * illegal   - every illegal message kind at every position of every short conversation;
 * random    - long sequences, several deviating callbacks at once, random request subsets at several positions,
               requests issued after the session ended, all serializers.
@@ -36,7 +38,8 @@ RULE = ("a case = (client transport websocket|rawsocket, serializer, behaviour o
         "welcome+goodbye coalesced in one read, router goodbye (reply or crossing), leave (<=2), disconnect, requests, one illegal message, "
         "finish own close}, each followed by {clean loss, unclean loss, plain end}, i.e. transport loss after EVERY prefix "
         "of every conversation; kinds family: all 64 subsets of the six request kinds x 9 session endings x 4 onLeave "
-        "variants; illegal family: every illegal message kind after every legal prefix of length <= 3 (4 thorough); random "
+        "variants; retry family: each request kind (and groups) with an errback that re-issues a request of the same/another "
+        "kind x 9 session endings x 4 onLeave variants; illegal family: every illegal message kind after every legal prefix of length <= 3 (4 thorough); random "
         "family: sequences up to 12 steps with 0-3 deviating callbacks, request subsets at several positions (also after "
         "the session ended), json/msgpack/cbor. Every family runs on both transports and both frameworks. Non-trivial = at "
         "least one clause of the statement was evaluated on the history (always the case once the transport handshake "
@@ -48,7 +51,7 @@ ASSUMPTIONS = [
     "'joined' = a WELCOME was delivered in the handshake phase on a transport the client had not started to close and onWelcome accepted it; from then until the GOODBYE exchange completes / the transport is gone the session counts as joined, whatever onJoin did",
     "any router message delivered after the client started closing its transport (disconnect(), default onLeave, protocol failure) makes the case 'ambiguous': only order / at-most-once / nothing-pending / API-after-end are then asserted",
     "leave after the CLIENT aborted the handshake itself (onChallenge raised, onWelcome denied) is grey: the statement names only the router's ABORT",
-    "illegal = exactly the statement's definition (pre-session: anything but WELCOME/ABORT/CHALLENGE; established: HELLO/WELCOME/CHALLENGE/AUTHENTICATE, and ABORT which may alternatively be treated as a session end); 'rejected as a protocol violation' is observed as: the client asks its transport to close/abort (or writes a WebSocket close frame) and none of the message's effects (callback, observer, reply on the wire, successful completion of a request) happens",
+    "illegal = exactly the statement's definition (pre-session: anything but WELCOME/ABORT/CHALLENGE; established: the handshake messages HELLO/WELCOME/CHALLENGE/AUTHENTICATE/ABORT - an ABORT after WELCOME is a protocol violation exactly like a second WELCOME; ABORT before establishment is legal); 'rejected as a protocol violation' is observed as: the client asks its transport to close/abort (or writes a WebSocket close frame) and none of the message's effects (callback, observer, reply on the wire, successful completion of a request) happens",
     "after the client sent ABORT, after a completed GOODBYE exchange and after a protocol failure the scripted router sends nothing further",
     "nothing-pending is asserted when the transport is gone, and additionally right after 'leave' when the library's default onLeave ran; 'API calls afterwards' are made once the transport is gone: a synchronous exception or an already failed future both count as failing immediately",
     "exceptions that reach the networking framework (e.g. asyncio 'Future exception was never retrieved' for a failing onJoin) are outside the statement: counted as evidence (escaped_to_framework_observed), never a violation",
@@ -63,7 +66,7 @@ DECIDING = {
     "loss_before_answer": 20, "loss_challenged": 20, "loss_joined_idle": 20, "loss_joined_outstanding": 20, "loss_closing": 20,
     "loss_joined_outstanding_call": 10, "loss_joined_outstanding_publish": 10, "loss_joined_outstanding_subscribe": 10,
     "loss_joined_outstanding_unsubscribe": 10, "loss_joined_outstanding_register": 10, "loss_joined_outstanding_unregister": 10,
-    "coalesced_welcome_goodbye": 20, "goodbye_crossing": 20, "conv_c2-welcome": 10, "conv_c1-rabort": 10, "transports_fw": 4, "end_reasons": 12,
+    "reissued_in_errback": 200, "reissued_future_returned": 50, "coalesced_welcome_goodbye": 20, "goodbye_crossing": 20, "conv_c2-welcome": 10, "conv_c1-rabort": 10, "transports_fw": 4, "end_reasons": 12,
 }
 
 KINDS = ["call", "publish", "subscribe", "unsubscribe", "register", "unregister"]
@@ -260,6 +263,34 @@ def family_kinds(tier, seed):
                            "steps": [["req", kinds]] + ending}
 
 
+RETRY_ENDINGS = [
+    [["rgoodbye"], ["finish"]], [["leave"], ["rgoodbye"], ["finish"]], [["leave"], ["rgoodbye", 1], ["finish"]],
+    [["rgoodbye"], ["lose", 0]], [["lose", 0]], [["lose", 1]], [["disconnect"], ["finish"]], [["illegal", "CHALLENGE"], ["finish"]],
+    [["leave"], ["lose", 1]],
+]
+
+
+def family_retry(tier, seed):
+    """Retry-on-error: the errback of an outstanding request re-issues a request of the same / of another kind while
+    the session is ending (GOODBYE from either side: the transport is still usable inside onLeave; loss: it is not).
+    The re-issued request must raise right away or be completed with an error by the time the transport is gone."""
+    groups = [[k] for k in KINDS] + [list(KINDS), ["call", "subscribe", "register"], ["publish", "unsubscribe", "unregister"]]
+    for kinds in groups:
+        for retry in ("same", "other"):
+            for ending in RETRY_ENDINGS:
+                for onleave in ("ok", "raise", "nosuper", "leave_again"):
+                    for tr in TRANSPORTS:
+                        yield {"transport": tr, "ser": "json", "modes": ({"onLeave": onleave} if onleave != "ok" else {}),
+                               "steps": [["welcome"], ["setup", 1], ["req", kinds, retry]] + ending}
+    # re-issuing before the session is established / when the router aborts
+    for kinds in ([["call"], ["publish"], ["subscribe"], ["register"], list(PRE_KINDS)]):
+        for retry in ("same", "other"):
+            for ending in ([["abort"], ["finish"]], [["challenge"], ["abort"], ["finish"]], [["lose", 0]],
+                           [["welcome"], ["rgoodbye"], ["finish"]], [["welcome_goodbye"], ["finish"]]):
+                for tr in TRANSPORTS:
+                    yield {"transport": tr, "ser": "json", "modes": {}, "steps": [["req", kinds, retry]] + ending}
+
+
 def family_illegal(tier, seed):
     """Every illegal message kind after every legal prefix."""
     maxlen = 3 if tier == "quick" else 4
@@ -277,7 +308,7 @@ def family_illegal(tier, seed):
 
 
 def enumerated(tier, seed):
-    for fam, gen in (("kinds", family_kinds), ("illegal", family_illegal), ("tree", family_tree)):
+    for fam, gen in (("kinds", family_kinds), ("retry", family_retry), ("illegal", family_illegal), ("tree", family_tree)):
         for case in gen(tier, seed):
             yield fam, case
 
@@ -302,12 +333,13 @@ def gen_random(rng):
     for l, s in zip(seq, sts):
         phase = s[0]
         if l == "req":
+            retry = rng.choice([None, None, "same", "same", "other"])
             if phase in ("joined", "closing") and not have_setup and rng.random() < 0.8:
-                steps.append(["setup"])
+                steps.append(["setup", 1] if retry else ["setup"])
                 have_setup = True
             pool = KINDS if have_setup else PRE_KINDS
             kinds = [k for k in pool if rng.random() < 0.5] or [rng.choice(pool)]
-            steps.append(["req", kinds])
+            steps.append(["req", kinds, retry] if retry else ["req", kinds])
         elif l == "illegal":
             table = ILLEGAL_PRE if phase == "pre" else ILLEGAL_POST
             steps.append(["illegal", rng.choice(table)])
@@ -403,7 +435,7 @@ MANIFEST_ENTRY = {
              "requests of all six kinds and one illegal message at any position; the transport is lost (clean and unclean) after "
              "every prefix of every conversation; each user callback (onConnect/onChallenge/onWelcome/onJoin/onLeave/"
              "onDisconnect) returns, raises, denies, leaves or skips the default implementation; all 64 populations of the six "
-             "request tables are crossed with every way a session ends; long random histories add several deviations at once. "
+             "request tables are crossed with every way a session ends; errbacks that re-issue a request (retry-on-error) run while the session ends; long random histories add several deviations at once. "
              "One ordered history per life (callbacks, observers, messages decoded at the wire, future completions) is judged "
              "online: callbacks and observers in the order connect, join, leave, disconnect and at most once per transport; "
              "leave present exactly when a joined session ended or the router aborted; illegal-phase messages fail the transport "
